@@ -415,7 +415,9 @@ where
 	let mut total: u64 = coins.iter().map(|c| c.value).sum();
 	let mut amount_with_fee = match amount_includes_fee {
 		true => amount,
-		false => amount + fee,
+		false => amount.checked_add(fee).ok_or(Error::GenericError(
+			format!("Transaction amount is too large to add fee").into(),
+		))?,
 	};
 
 	if total == 0 {
@@ -444,7 +446,9 @@ where
 		fee = tx_fee(coins.len(), num_outputs, 1);
 		amount_with_fee = match amount_includes_fee {
 			true => amount,
-			false => amount + fee,
+			false => amount.checked_add(fee).ok_or(Error::GenericError(
+				format!("Transaction amount is too large to add fee").into(),
+			))?,
 		};
 
 		// Here check if we have enough outputs for the amount including fee otherwise
@@ -475,7 +479,9 @@ where
 			total = coins.iter().map(|c| c.value).sum();
 			amount_with_fee = match amount_includes_fee {
 				true => amount,
-				false => amount + fee,
+				false => amount.checked_add(fee).ok_or(Error::GenericError(
+					format!("Transaction amount is too large to add fee").into(),
+				))?,
 			};
 		}
 	}
